@@ -297,6 +297,7 @@ func init() {
 		Property:  "C16",
 		Technique: "the C01 program enumeration with every listener of every builder registered, the event log of each execution checked against the event contract; plus schedule exploration of concurrent executions sharing listeners, of hedge attempts returning around the hedge delays, of async executions cancelled at every kind of instant, of breaker transitions made by several threads (connected event path ending in the breaker's state), and of cancellations landing while an execution waits for a bulkhead or limiter permit (refusal listeners only for refusals)",
 		Rule: "same program space as C01, plus the hedge-timing family of C09 (attempts returning before, at and after the instants the hedge delays expire); the oracle is the event contract: one OnDone and one of OnSuccess/OnFailure; OnRetryScheduled/OnRetry per retry decided/started and their order; OnRetriesExceeded/OnAbort at most once and only in the matching situation; " +
+			"every subset of the executor's OnDone/OnSuccess/OnFailure listeners x three stacks x outcomes x sync/async (a registered listener fires exactly when its situation occurred, whatever else is registered); " +
 			"breaker events = the reference machine's transitions, specific then generic; OnFull/OnRateLimitExceeded/OnTimeoutExceeded/OnFallbackExecuted/OnHedge/cache events exactly when the rejection, timeout, fallback, hedge, hit, miss, store happened; policy OnSuccess/OnFailure per classified result",
 		Assume: []string{"an abort-matching failure on the exhausting attempt may be reported as either story (one event)", "an execution without any cache key may or may not report a miss"},
 		Budget: map[string]time.Duration{"quick": 150 * time.Second, "thorough": 25 * time.Minute},
@@ -311,7 +312,8 @@ func init() {
 	register(&CheckDef{
 		Property:  "C17",
 		Technique: "the C01 program enumeration with the execution statistics sampled at every point user code runs (function entry/exit, every listener, fallback, done event) and compared with the harness's own counts",
-		Rule: "same program space as C01, plus the hedge-timing family of C09 (attempts returning before, at and after the instants the hedge delays expire, every schedule within the bound); hedges started are counted from the goroutines the hedge policy actually spawned, not from its events; at every observation point Attempts = 1 + retries started + hedges started, Retries/Hedges equal the starts observed, Executions = invocations completed (exact without hedges, an upper bound during overlapping hedge attempts, exact at quiescence), " +
+		Rule: "a cancellation landing while a retry policy's OnRetry listener runs (the listener cancels the caller's context, or is slow under an enclosing Timeout; sync/async): a counted retry is a started one; " +
+			"same program space as C01, plus the hedge-timing family of C09 (attempts returning before, at and after the instants the hedge delays expire, every schedule within the bound); hedges started are counted from the goroutines the hedge policy actually spawned, not from its events; at every observation point Attempts = 1 + retries started + hedges started, Retries/Hedges equal the starts observed, Executions = invocations completed (exact without hedges, an upper bound during overlapping hedge attempts, exact at quiescence), " +
 			"IsFirstAttempt/IsRetry/IsHedge agree, LastResult/LastError = outcome of the previous attempt",
 		Assume: []string{"IsRetry is documented as Attempts > 1 and IsFirstAttempt as Attempts == 1 on the shared counter", "LastResult/LastError are compared at points where the observing attempt is not cancelled"},
 		Budget: map[string]time.Duration{"quick": 150 * time.Second, "thorough": 25 * time.Minute},
